@@ -11,14 +11,14 @@ import (
 func init() {
 	register(&Check{
 		ID: "C15", Level: "exploration", QuickSecs: 150, ThoroughSecs: 900,
-		Rule:        "ALL character classes made of 1..K items (quick K=3, thorough K=4) from {a,Z,_,0,é,a-c,X-b,@-Z,0-é,\\pL,\\p{Nd},\\p{Latin},\\],\\p{Lu}} x inverted x ignore-case, eight classes per grammar (one rule each, selected with Entrypoint); inputs: each of the 128 Basic Latin runes, é, É, ǅ, U+FFFD (valid encoding), the invalid byte 0xFF (AllowInvalidUTF8) and the empty input. For every (class, input): parser generated with -optimize-basic-latin vs parser generated without it (real vs real), both also against the reference class semantics (member iff some element of the class equals the rune, under simple case folding when i; ^ complements; EOF never matches). Non-trivial = the class matches the rune (table entry true) or the class is case-insensitive.",
+		Rule:        "ALL character classes made of 1..K items (quick K=3, thorough K=4) from {a,Z,_,0,é,a-c,X-b,@-Z,0-é,\\pL,\\p{Nd},\\p{Latin},\\],\\p{Lu},U+212A KELVIN SIGN,U+0100-U+0200,!-U+00FF} x inverted x ignore-case, eight classes per grammar (one rule each, selected with Entrypoint); inputs: each of the 128 Basic Latin runes, é, É, ǅ, U+FFFD (valid encoding), the invalid byte 0xFF (AllowInvalidUTF8) and the empty input. For every (class, input): parser generated with -optimize-basic-latin vs parser generated without it (real vs real), both also against the reference class semantics (member iff some element of the class equals the rune, under simple case folding when i; ^ complements; EOF never matches). Non-trivial = the class matches the rune (table entry true) or the class is case-insensitive.",
 		Assumptions: []string{"E1 loader", "reference class semantics for i = simple case folding of both sides"},
 		Run:         runC15,
 	})
 }
 
 func classItems() []string {
-	return []string{"a", "Z", "_", "0", "é", "a-c", "X-b", "@-Z", "0-é", `\pL`, `\p{Nd}`, `\p{Latin}`, "]", `\p{Lu}`}
+	return []string{"a", "Z", "_", "0", "é", "a-c", "X-b", "@-Z", "0-é", `\pL`, `\p{Nd}`, `\p{Latin}`, "]", `\p{Lu}`, "K", "Ā-Ȁ", "!-ÿ"}
 }
 
 func runC15(c *ShardCtx) {
